@@ -554,6 +554,21 @@ func (c *c16ctx) fromLine(line string) {
 			c.checkRequest(mm)
 			c.checkReply(mm)
 		}
+		if ms, ok := kv(toks[1:], "mods"); ok {
+			c.checkNewMods(sxMsg6(m), ms)
+		}
+	case "v6mods":
+		if ms, ok := kv(toks[1:], "mods"); ok {
+			c.checkNewMods(sxMsg6(m), ms)
+		}
+	case "v6update", "v6add":
+		if len(pos) > 1 {
+			c.checkOptionOps(sxMsg6(m), pos[1], dpnTermCode(pos[1]))
+		}
+	case "v6del":
+		if len(pos) > 1 {
+			c.checkOptionOps(sxMsg6(m), "g(65000,-)", atoi(pos[1]))
+		}
 	default:
 		c.checkChain(m)
 		// the chain's own headers re-applied with the real EncapsulateRelay
@@ -579,7 +594,10 @@ func oracleC16(r *Rng, n int, thorough bool, seeds []string) *OracleResult {
 	}
 	for i := 0; i < n; i++ {
 		rr := r.Fork()
-		switch k := rr.Intn(10); {
+		switch k := rr.Intn(12); {
+		case k >= 10:
+			// option-list operations and the modifiers built on them
+			c.checkOpsRandom(rr)
 		case k < 2:
 			// n-fold encapsulation with the real EncapsulateRelay
 			s := genInnerSpec(rr, rr.Pick(msgTypes6))
